@@ -347,6 +347,8 @@ fn app_packet(op: &AppOp, mode: &Mode) -> Option<Result<insim::insim::Isi, insim
             isi.iname = "vp".into();
             Some(Ok(isi))
         },
+        // one-byte pseudo frames stand for packets the encoder must refuse (see c03::seq_packet)
+        AppOp::Write(f) if f.len() == 1 => crate::props::c03::seq_packet(f, mode).map(Err),
         AppOp::Write(f) => {
             let mut b = bytes::BytesMut::from(&f[..]);
             Codec::new(mode.clone()).decode(&mut b).ok().flatten().map(Err)
